@@ -42,6 +42,8 @@ pub struct SchedTls {
     pub other_ops: Cell<u64>,
     /// remaining hooked operations the harness itself may perform (drain etc.); u64::MAX = unlimited
     pub harness_budget: Cell<u64>,
+    /// threads that are scheduled at the granularity of whole calls (only `yield_point` suspends them)
+    pub coarse: [Cell<bool>; MAX_THREADS],
     stacks: RefCell<Vec<DefaultStack>>,
 }
 
@@ -59,6 +61,7 @@ thread_local! {
         pending: RefCell::new([None; MAX_THREADS]),
         other_ops: Cell::new(0),
         harness_budget: Cell::new(u64::MAX),
+        coarse: Default::default(),
         stacks: RefCell::new(Vec::new()),
     };
 }
@@ -84,7 +87,7 @@ pub fn install_hook() {
                     }
                 }
                 if tid >= 0 {
-                    let skip = s.noyield.borrow().contains(&ev.obj);
+                    let skip = s.noyield.borrow().contains(&ev.obj) || s.coarse[tid as usize].get();
                     if !skip {
                         s.pending.borrow_mut()[tid as usize] = Some(*ev);
                         let y = s.yielders.borrow()[tid as usize];
@@ -134,7 +137,27 @@ pub fn begin_execution() {
         for c in &s.cur_op {
             c.set(0);
         }
+        for c in &s.coarse {
+            c.set(false);
+        }
         *s.pending.borrow_mut() = [None; MAX_THREADS];
+    });
+}
+
+/// Marks a thread as coarse-grained: its hooked operations are not scheduling points, only `yield_point()` is.
+pub fn set_coarse(tid: usize, coarse: bool) {
+    SCHED.with(|s| s.coarse[tid].set(coarse));
+}
+
+/// An explicit scheduling point of the calling program thread (used between the calls of a coarse-grained thread).
+pub fn yield_point() {
+    SCHED.with(|s| {
+        let tid = s.cur_tid.get();
+        if tid >= 0 {
+            let y = s.yielders.borrow()[tid as usize];
+            // SAFETY: as in the hook - the pointer belongs to the coroutine that is running right now
+            unsafe { (*y).suspend(()) };
+        }
     });
 }
 
